@@ -15,6 +15,11 @@
 // small table CHECKED against the source (lkWiringChecks); if a check fails, or a Lock/Unlock
 // call cannot be attributed to a known mutex field, the facts are emitted as `none`.
 //
+// The same walk gives a syntactic guarded-by check (`unguardedAccesses`): a struct field that is
+// declared above a mutex of its struct ("mu protects the above fields") and is written
+// somewhere after construction must only be read or written where that mutex is held, lexically
+// or at every call site of the enclosing unexported function.
+//
 // Assumed (not analysed): code outside the scanned packages (logger, prometheus, yamux, gin,
 // the standard library) neither takes one of these mutexes nor calls back into them.
 package main
@@ -67,7 +72,7 @@ type lkTy struct {
 }
 
 type lkEvent struct {
-	kind    string   // "acq" | "call" | "cb"
+	kind    string   // "acq" | "call" | "cb" | "read" | "write" (of a field declared above a mutex)
 	lock    string   // acq
 	callees []string // call
 	field   string   // cb: "<dir>:<Type>.<field>"
@@ -83,6 +88,7 @@ type lkWorld struct {
 	regIn    map[string]string   // registrar "dir:Type.Method" -> cb field
 	events   map[string][]lkEvent
 	byName   map[string][]string // method name -> function keys
+	guardBy  map[string]string   // "<dir>:<Type>.<field>" declared above a mutex of the same struct -> that mutex's name
 	problems []string
 	notes    []string
 }
@@ -643,6 +649,11 @@ func (f *lkFn) call(c *ast.CallExpr, held map[string]bool) {
 			}
 		}
 	}
+	if id, ok := c.Fun.(*ast.Ident); ok && (id.Name == "delete" || id.Name == "clear") && len(c.Args) > 0 {
+		if _, local := f.env[id.Name]; !local {
+			f.writeTarget(c.Args[0], held)
+		}
+	}
 	// arguments first (nested calls, func literals run by the callee)
 	for _, a := range c.Args {
 		f.expr(a, held)
@@ -679,6 +690,7 @@ func (f *lkFn) expr(e ast.Expr, held map[string]bool) {
 	case *ast.ParenExpr:
 		f.expr(x.X, held)
 	case *ast.SelectorExpr:
+		f.access(x, "read", held)
 		f.expr(x.X, held)
 	case *ast.IndexExpr:
 		f.expr(x.X, held)
@@ -704,6 +716,39 @@ func (f *lkFn) expr(e ast.Expr, held map[string]bool) {
 		for _, el := range x.Elts {
 			f.expr(el, held)
 		}
+	}
+}
+
+// access records a read/write of a struct field that is declared above a mutex of its struct.
+func (f *lkFn) access(x *ast.SelectorExpr, kind string, held map[string]bool) {
+	if q, ok := f.w.named(f.typeOf(x.X)); ok {
+		k := q + "." + x.Sel.Name
+		if _, ok := f.w.guardBy[k]; ok {
+			f.emit(lkEvent{kind: kind, field: k, held: lkKeys(held), where: f.pos(x)})
+		}
+	}
+}
+
+// writeTarget: the field whose content an assignment / delete / ++ modifies (x.f, x.f[k], *x.f …).
+func (f *lkFn) writeTarget(e ast.Expr, held map[string]bool) {
+	for {
+		switch x := e.(type) {
+		case *ast.IndexExpr:
+			e = x.X
+			continue
+		case *ast.StarExpr:
+			e = x.X
+			continue
+		case *ast.ParenExpr:
+			e = x.X
+			continue
+		case *ast.SliceExpr:
+			e = x.X
+			continue
+		case *ast.SelectorExpr:
+			f.access(x, "write", held)
+		}
+		return
 	}
 }
 
@@ -802,6 +847,7 @@ func (f *lkFn) stmt(s ast.Stmt, held map[string]bool) map[string]bool {
 		}
 		for _, l := range x.Lhs {
 			if _, isId := l.(*ast.Ident); !isId {
+				f.writeTarget(l, held)
 				f.expr(l, held)
 			}
 		}
@@ -831,6 +877,7 @@ func (f *lkFn) stmt(s ast.Stmt, held map[string]bool) map[string]bool {
 			f.expr(r, held)
 		}
 	case *ast.IncDecStmt:
+		f.writeTarget(x.X, held)
 		f.expr(x.X, held)
 	case *ast.SendStmt:
 		f.expr(x.Chan, held)
@@ -1294,12 +1341,13 @@ type lkResult struct {
 	problems  []string
 	notes     []string
 	regs      map[string][]string
-	unheldCbs []string
+	unguarded []string
+	guardBy   map[string]string
 }
 
 func lkAnalyse() *lkResult {
 	w := &lkWorld{pkgs: map[string]*lkPkg{}, locks: map[string]string{}, cbFields: map[string]bool{},
-		regs: map[string][]string{}, regIn: map[string]string{}, events: map[string][]lkEvent{}, byName: map[string][]string{}}
+		regs: map[string][]string{}, regIn: map[string]string{}, events: map[string][]lkEvent{}, byName: map[string][]string{}, guardBy: map[string]string{}}
 	res := &lkResult{witness: map[[2]string]string{}, cbUnder: map[string][]string{}}
 	for _, d := range lkPkgDirs {
 		p := lkLoad(d)
@@ -1322,6 +1370,7 @@ func lkAnalyse() *lkResult {
 			if !ok {
 				continue
 			}
+			var above []string
 			for _, fl := range st.Fields.List {
 				for _, nm := range fl.Names {
 					k := d + ":" + tn + "." + nm.Name
@@ -1331,6 +1380,13 @@ func lkAnalyse() *lkResult {
 							name = k
 						}
 						w.locks[k] = name
+						// "mu protects the above fields"
+						for _, a := range above {
+							w.guardBy[a] = name
+						}
+						above = nil
+					} else {
+						above = append(above, k)
 					}
 					if at, ok := fl.Type.(*ast.ArrayType); ok {
 						if _, ok := at.Elt.(*ast.FuncType); ok {
@@ -1458,6 +1514,102 @@ func lkAnalyse() *lkResult {
 			}
 		}
 	}
+	// guarded-field check: every access to a MUTABLE field declared above a mutex of its struct
+	// ("mu protects the above fields") happens with that mutex held, lexically or at every call
+	// site of the enclosing unexported function.
+	mutable := map[string]bool{}
+	for _, evs := range w.events {
+		for _, e := range evs {
+			if e.kind == "write" {
+				mutable[e.field] = true
+			}
+		}
+	}
+	type lkSite struct {
+		caller string
+		held   []string
+	}
+	callers := map[string][]lkSite{}
+	for _, k := range fkeys {
+		for _, e := range w.events[k] {
+			if e.kind == "call" || e.kind == "cb" {
+				for _, c := range targets(e) {
+					callers[c] = append(callers[c], lkSite{k, e.held})
+				}
+			}
+		}
+	}
+	unexported := func(k string) bool {
+		if strings.Contains(k, "$go") {
+			return false
+		}
+		n := k[strings.LastIndexAny(k, ":.")+1:]
+		return n != "" && n[0] >= 'a' && n[0] <= 'z'
+	}
+	allLocks := map[string]bool{}
+	for _, n := range w.locks {
+		allLocks[n] = true
+	}
+	entry := map[string]map[string]bool{}
+	for _, k := range fkeys {
+		if unexported(k) && len(callers[k]) > 0 {
+			entry[k] = lkCopy(allLocks)
+		} else {
+			entry[k] = map[string]bool{}
+		}
+	}
+	for changed := true; changed; {
+		changed = false
+		for _, k := range fkeys {
+			if !unexported(k) || len(callers[k]) == 0 {
+				continue
+			}
+			var inter map[string]bool
+			for _, c := range callers[k] {
+				h := lkCopy(entry[c.caller])
+				for _, l := range c.held {
+					h[l] = true
+				}
+				if inter == nil {
+					inter = h
+				} else {
+					for l := range inter {
+						if !h[l] {
+							delete(inter, l)
+						}
+					}
+				}
+			}
+			if len(inter) != len(entry[k]) {
+				entry[k], changed = inter, true
+			}
+		}
+	}
+	ung := map[string]bool{}
+	for _, k := range fkeys {
+		for _, e := range w.events[k] {
+			if (e.kind != "read" && e.kind != "write") || !mutable[e.field] {
+				continue
+			}
+			l := w.guardBy[e.field]
+			ok := entry[k][l]
+			for _, h := range e.held {
+				if h == l {
+					ok = true
+				}
+			}
+			if !ok {
+				ung[fmt.Sprintf("%s of %s without %s in %s (%s)", e.kind, short(e.field), l, short(k), e.where)] = true
+			}
+		}
+	}
+	res.unguarded = lkKeys(ung)
+	res.guardBy = map[string]string{}
+	for k, l := range w.guardBy {
+		if mutable[k] {
+			res.guardBy[short(k)] = l
+		}
+	}
 	for e := range es {
 		res.edges = append(res.edges, e)
 	}
@@ -1526,6 +1678,7 @@ func lockFacts() string {
 		b.WriteString("def selfEdges : Option (List String) := none\n")
 		b.WriteString("def callbacksUnderClusterMu : Option (List String) := none\n")
 		b.WriteString("def callbacksUnderLock : Option (List (String × String)) := none\n")
+		b.WriteString("def unguardedAccesses : Option (List String) := none\n")
 		return b.String()
 	}
 	for _, e := range r.edges {
@@ -1562,6 +1715,17 @@ func lockFacts() string {
 		}
 	}
 	fmt.Fprintf(&b, "def callbacksUnderLock : Option (List (String × String)) := some %s\n", lkPairList(all))
+	b.WriteString("-- guarded fields: mutable struct fields declared above a mutex of their struct (\"mu protects the above fields\")\n")
+	var gks []string
+	for k := range r.guardBy {
+		gks = append(gks, k)
+	}
+	sort.Strings(gks)
+	for _, k := range gks {
+		fmt.Fprintf(&b, "--   %s guarded by %s\n", k, r.guardBy[k])
+	}
+	b.WriteString("-- accesses to a guarded field at a point where its mutex is not held (lexically, or at every call site of the unexported function)\n")
+	fmt.Fprintf(&b, "def unguardedAccesses : Option (List String) := some %s\n", lkStrList(r.unguarded))
 	for _, n := range r.notes {
 		fmt.Fprintf(&b, "--   note: %s\n", n)
 	}
